@@ -11,7 +11,7 @@ pub fn run(tier: Tier, seed: u64) -> i32 {
         "native mini-SVM reproduces loader serialisation, CPI privileges and post-instruction account rules; CPIs run the real spl-token / token-2022 processors".into(),
         "histories are sampled (seeded), not enumerated".into(),
     ];
-    let per_shard = tier.pick(14, 1400);
+    let per_shard = tier.pick(56, 1400);
     let ops = tier.pick(110, 160);
     let acc = run_histories(
         seed,
